@@ -365,6 +365,13 @@ class KeyedSet(Generic[ItemType, KeyType], MutableSet, KeyedBase):  # pylint: di
         except TypeError:
             pass
 
+    def _from_iterable(self, it):  # pylint: disable=arguments-differ
+        # Used by the `Set` mixins (`|`, `&`, `-`, `^`) to build their results;
+        # the result must be keyed (and checked) the same way as this instance.
+        return type(self)(
+            it, key=self._key, enforce_item_equivalence=self.enforce_item_equivalence
+        )
+
     # Magic methods
 
     def __eq__(self, other):
